@@ -105,7 +105,13 @@ class ParseTimeout(argparse.Action):
     @staticmethod
     def parse(values: str) -> float:
         # keeping ms as the default unit for backward compatibility
-        return parse_time(values, default_unit="ms")
+        value = parse_time(values, default_unit="ms")
+
+        # note: float() accepts "nan", "inf" and negative numbers, none of which is a time limit
+        if not 0 <= value < float("inf"):
+            raise ValueError(f"invalid timeout: {values}")
+
+        return value
 
     @staticmethod
     def unparse(value: float) -> str:
@@ -146,7 +152,13 @@ class ParseCSVInt(argparse.Action):
 
     @staticmethod
     def parse(values: str) -> list[int]:
-        return ensure_non_empty([int(x) for x in parse_csv(values)])
+        result = ensure_non_empty([int(x) for x in parse_csv(values)])
+
+        # the values are lengths
+        if any(x < 0 for x in result):
+            raise ValueError(f"negative values are not allowed: {values}")
+
+        return result
 
     @staticmethod
     def unparse(values: list[int]) -> str:
@@ -166,7 +178,13 @@ class ParseErrorCodes(argparse.Action):
             return set()
 
         # support multiple bases: decimal, hex, etc.
-        return ensure_non_empty(set(int(x, 0) for x in parse_csv(values)))
+        result = ensure_non_empty(set(int(x, 0) for x in parse_csv(values)))
+
+        # error codes are unsigned (and unparse() cannot render a negative one)
+        if any(x < 0 for x in result):
+            raise ValueError(f"negative error codes are not allowed: {values}")
+
+        return result
 
     @staticmethod
     def unparse(values: set[int]) -> str:
